@@ -130,12 +130,12 @@ type tree struct {
 }
 
 func (t tree) buildOutside() error {
-	for _, d := range []string{"a", "a/a", "base"} {
+	for _, d := range []string{"a", "a/a", "base", "base-private"} {
 		if err := os.MkdirAll(filepath.Join(t.root, d), 0o755); err != nil {
 			return err
 		}
 	}
-	for _, f := range []string{"outside.txt", "b", "a/b", "a/a/b"} {
+	for _, f := range []string{"outside.txt", "b", "a/b", "a/a/b", "base-private/s.txt"} {
 		if err := os.WriteFile(filepath.Join(t.root, f), []byte(marker), 0o644); err != nil {
 			return err
 		}
@@ -311,6 +311,14 @@ func partB(r *ev.Run, n int) {
 					cases = append(cases, caseB{"B", base, op, p, ""})
 				}
 			}
+			for _, p := range hostSpellings {
+				switch op {
+				case "Rename", "Symlink":
+					cases = append(cases, caseB{"B", base, op, p, "keep2"}, caseB{"B", base, op, "keep", p})
+				default:
+					cases = append(cases, caseB{"B", base, op, p, ""})
+				}
+			}
 		}
 	}
 	nw := 16
@@ -340,10 +348,12 @@ func partB(r *ev.Run, n int) {
 			}
 			for i := w; i < len(cases); i += nw {
 				c := cases[i]
-				class, read := runB(fss[c.Base], c)
+				class, read := runB(fss[c.Base], c, basedir)
 				r.Eval(1)
 				r.Outcome("B|" + c.Op + "|" + class + "|" + ev.Clip(strings.ReplaceAll(read, t.root, "T"), 40))
-				if strings.Contains(read, marker) || strings.Contains(read, "outside.txt") {
+				// (a directory listing that names outside.txt has listed the parent of the base; a path argument
+				// that itself spells the name proves nothing when it comes back in a walk or an error)
+				if strings.Contains(read, marker) || (strings.Contains(read, "outside.txt") && !strings.Contains(c.P, "outside.txt")) {
 					r.Report("localfs-read-outside", fmt.Sprintf("localfs(base=%s).%s(%q) returned content from outside the base: %q", c.Base, c.Op, c.P, ev.Clip(read, 80)), c, read, "content from inside the base or an error")
 				}
 				if c.Op == "MkdirTemp" && class == "ok" {
@@ -376,13 +386,19 @@ func partB(r *ev.Run, n int) {
 	r.Sample(cases[len(cases)/3])
 }
 
-func runB(fsys ros.FS, c caseB) (class, read string) {
+// hostSpellings: paths that begin with the host spelling of the base directory itself (a script learns it
+// from error messages and from the paths WalkDir reports) - the base, entries inside it, a sibling whose
+// name merely starts like the base, and ways out of it. <BASE> is replaced by the worker's base directory.
+var hostSpellings = []string{"<BASE>", "<BASE>/", "<BASE>/b", "<BASE>/new", "<BASE>-private/s.txt", "<BASE>-private/new", "<BASE>-private",
+	"<BASE>/../outside.txt", "<BASE>/../new", "<BASE>../outside.txt", "<BASE>/a/../../b", "<BASE>/../base-private/s.txt"}
+
+func runB(fsys ros.FS, c caseB, basedir string) (class, read string) {
 	defer func() {
 		if e := recover(); e != nil {
 			class, read = "panic", fmt.Sprint(e)
 		}
 	}()
-	return doOp(fsys, c.Op, c.P, c.Q)
+	return doOp(fsys, c.Op, strings.ReplaceAll(c.P, "<BASE>", basedir), strings.ReplaceAll(c.Q, "<BASE>", basedir))
 }
 
 func diffLines(a, b string) string {
@@ -507,7 +523,7 @@ func partC(r *ev.Run, n int) {
 			cnt++
 			log = log[:0]
 			c := caseC{"C", ms, cwd, op, p, q}
-			class, _ := runB(vos, caseB{Op: op, P: p, Q: q})
+			class, _ := runB(vos, caseB{Op: op, P: p, Q: q}, "")
 			if class == "panic" {
 				r.Report("virtualos-panic", fmt.Sprintf("VirtualOS.%s(%q,%q) panicked", op, p, q), c, "panic", "value or error")
 				return
